@@ -62,7 +62,7 @@ _J("jb.bw_sequence2", ["C17", "C01"], JBW, JBWM, "bitwriter_sequence_2",
    "bounded:<= 2 writes (each write_huffman or write_raw, every bits value, every len <= 63)",
    ["BitWriter::new", "BitWriter::write_huffman", "BitWriter::write_raw", "BitWriter::flush_buf", "BitWriter::padding_bits", "BitWriter::finalize"],
    "end to end from new(): bytes of <= 2 writes + finalize == T.81 bit sequence (MSB-first packing, stuffing, 0-fill); "
-   "padding_bits after every write" + _BW_STUBS, timeout=300)
+   "padding_bits after every write" + _BW_STUBS, tier="thorough", timeout=900)
 _J("jb.bw_sequence3", ["C17", "C01"], JBW, JBWM, "bitwriter_sequence_3",
    "bounded:<= 3 writes (each write_huffman or write_raw, every bits value, every len <= 63)",
    ["BitWriter::new", "BitWriter::write_huffman", "BitWriter::write_raw", "BitWriter::flush_buf", "BitWriter::padding_bits", "BitWriter::finalize"],
@@ -135,12 +135,12 @@ _J("jb.flush_padding_stream", ["C17", "C01"], JSC, JSCM, "flush_padding_stream_c
    "bounded:<= 15 pending bits, fresh 2-byte padding stream (every value)",
    ["ScanState::flush_bit_writer", "BitWriter::padding_bits", "BitWriter::write_raw", "BitWriter::finalize"],
    "with a padding stream: exactly padding_bits() bits are consumed from it and the emitted padding consists of those bits "
-   "(order-insensitive part); segment bits unchanged" + _SC_STUBS, timeout=600)
+   "(order-insensitive part); segment bits unchanged" + _SC_STUBS, timeout=300)
 _J("jb.flush_padding_order", ["C17"], JSC, JSCM, "flush_padding_order_contract",
    "bounded:<= 15 pending bits, fresh 2-byte padding stream (every value)",
    ["ScanState::flush_bit_writer"],
    "padding bits are emitted in the order in which the reconstruction data lists them (jbrd padding_bits are one bit per entry in "
-   "stream order; libjxl's writer shifts them in first-to-last, MSB first)" + _SC_STUBS, timeout=600)
+   "stream order; libjxl's writer shifts them in first-to-last, MSB first)" + _SC_STUBS, timeout=300)
 _J("jb.restart", ["C17", "C01"], JSC, JSCM, "restart_contract",
    "bounded:<= 15 pending bits (every value), every rst_m in 0..=7, 3 components",
    ["ScanState::restart", "ScanState::flush_bit_writer"],
